@@ -174,6 +174,87 @@ def run_subject(spec, root, hashseed=0, timeout=120, seg='0', aslr_off=True):
     return res
 
 
+class InteractiveSubject:
+    """a long-lived subject fed one op at a time (for histories whose next op depends on
+    the result of the previous one).  Still a pure function of the ops sent: the subject
+    draws no random numbers and reads no real clock."""
+
+    def __init__(self, spec, root, hashseed=0, seg='i', aslr_off=True):
+        import select
+        self._select = select
+        spec = dict(spec, interactive=True, root=root)
+        spec.setdefault('ops', [])
+        spec.setdefault('watchdog_s', 600)
+        sp = os.path.join(root, 'spec-%s.json' % seg)
+        self.out_path = os.path.join(root, 'out-%s.jsonl' % seg)
+        with open(sp, 'w') as f:
+            json.dump(spec, f)
+        if os.path.exists(self.out_path):
+            os.remove(self.out_path)
+        cmd = (setarch_prefix() if aslr_off else []) + [PY, '-X', 'faulthandler', SUBJECT, sp, self.out_path]
+        self.p = subprocess.Popen(cmd, env=subject_env(hashseed), stdin=subprocess.PIPE, stdout=subprocess.PIPE,
+                                  stderr=subprocess.PIPE, start_new_session=True, cwd=root)
+        self.buf = b''
+        self.failed = None
+
+    def step(self, op, timeout=90):
+        if self.failed:
+            return None
+        try:
+            self.p.stdin.write((json.dumps(op) + '\n').encode())
+            self.p.stdin.flush()
+        except (BrokenPipeError, OSError):
+            self.failed = 'subject gone'
+            return None
+        deadline = time.time() + timeout
+        while True:
+            nl = self.buf.find(b'\n')
+            if nl >= 0:
+                line, self.buf = self.buf[:nl], self.buf[nl + 1:]
+                if line.startswith(b'EV '):
+                    return json.loads(line[3:])
+                continue
+            left = deadline - time.time()
+            if left <= 0:
+                self.failed = 'timeout'
+                return None
+            r, _, _ = self._select.select([self.p.stdout], [], [], left)
+            if not r:
+                self.failed = 'timeout'
+                return None
+            chunk = os.read(self.p.stdout.fileno(), 1 << 16)
+            if not chunk:
+                self.failed = 'subject exited'
+                return None
+            self.buf += chunk
+
+    def close(self):
+        err = b''
+        try:
+            if self.p.poll() is None and not self.failed:
+                try:
+                    self.p.stdin.write(b'{"op": "quit"}\n')
+                    self.p.stdin.flush()
+                    self.p.stdin.close()
+                    self.p.wait(timeout=20)
+                except Exception:
+                    pass
+        finally:
+            try:
+                os.killpg(self.p.pid, signal.SIGKILL)
+            except (ProcessLookupError, PermissionError):
+                pass
+            try:
+                err = self.p.stderr.read() or b''
+            except Exception:
+                pass
+            try:
+                self.p.wait(timeout=10)
+            except Exception:
+                pass
+        return err.decode('utf-8', 'replace')[-2000:]
+
+
 def run_history(case, root, inv=(), extra=None, timeout=110):
     """execute case['ops'] on scratch root; host_restart ops split the history
     into successive fresh interpreters sharing root (world + pickle cache).
@@ -380,13 +461,22 @@ def write_evidence(pid, tier, seed, level, coverage, wall, violations, assumptio
 
 
 def setup_pyc_prefix():
-    """byte-code is compiled from /repo's current working tree for this check
-    invocation, never read from a stale __pycache__"""
-    d = os.path.join(SCRATCH_BASE, 'jv-pyc-%d' % os.getpid())
-    shutil.rmtree(d, ignore_errors=True)
-    os.makedirs(d)
-    PYC_PREFIX[0] = d
-    return d
+    """Byte-code of the code under test is rebuilt from /repo's current working tree
+    at the start of every check invocation: hash-validated pycs (PEP 552,
+    checked-hash) are written into /repo/jedi/**/__pycache__ (git-ignored), so an
+    edit is picked up whatever its mtime, and every subject of this invocation -
+    first or last - loads the same byte-code (the self-test found event logs
+    differing between "compiled from source" and "loaded from pyc": the heap
+    layout differs).  Subjects themselves never write byte-code."""
+    PYC_PREFIX[0] = None
+    try:
+        subprocess.run([PY, '-m', 'compileall', '-q', '-j', '8', '--invalidation-mode', 'checked-hash',
+                        os.path.join(REPO, 'jedi')],
+                       stdout=subprocess.DEVNULL, stderr=subprocess.DEVNULL, timeout=300,
+                       env={'PATH': '/usr/local/bin:/usr/bin:/bin'})
+    except Exception:
+        pass
+    return None
 
 
 def cleanup_pyc_prefix():
